@@ -197,6 +197,12 @@ func get(r leveldb.Reader, readOpts *opt.ReadOptions, key string) (string, error
 }
 
 func find(r leveldb.Reader, readOpts *opt.ReadOptions, start, end string) sorted.Iterator {
+	if end != "" && start >= end {
+		// Empty range. goleveldb panics (slice bounds out of range in
+		// tFiles.newIndexIterator) on an inverted range once the DB has
+		// tables below level 0.
+		return errIter{}
+	}
 	var startB, endB []byte
 	// A nil Range.Start is treated as a key before all keys in the DB.
 	if start != "" {
